@@ -37,6 +37,9 @@ func runC16(c *Check, tier string) {
 	// the Starlark loader produces the same strings as the other loaders
 	ruleStarlarkDisplayFormNotStored(c, "R16m")
 	ruleSharedMapNotWritten(c, "R16n")
+	ruleStarlarkThreadsBounded(c, "R16o")
+	ruleEveryLoadedPackageRegistered(c, "R16p")
+	ruleMergeWritesIntoTablePackage(c, "R16q")
 	shareRule(c, "R16k", "every insertion into the node map is guarded by a lookup of the same label that rejects a duplicate (same obligations as R11c)", 2, "R11c", func(sub *Check) { ruleR11c(sub) }, func(k string) bool { return strings.Contains(k, "guarded-insert") })
 }
 
@@ -403,6 +406,16 @@ func ruleR16d(c *Check) {
 
 func lenGuardAtom(x ssa.Value, min int64) func(a engine.Atom) bool {
 	return func(a engine.Atom) bool {
+		// for a string, `s != ""` says as much as `len(s) != 0`
+		if min == 1 && a.Op == "ne" && a.Other != nil {
+			for _, pair := range [][2]ssa.Value{{a.V, a.Other}, {a.Other, a.V}} {
+				if k, isK := pair[1].(*ssa.Const); isK && k.Value != nil && k.Value.Kind() == constant.String && constant.StringVal(k.Value) == "" {
+					if sameSlice(pair[0], x) || engine.ExprKey(pair[0]) == engine.ExprKey(x) || pair[0] == x {
+						return true
+					}
+				}
+			}
+		}
 		arg, ok := lenArg(a.V)
 		if !ok || !(sameSlice(arg, x) || engine.ExprKey(arg) == engine.ExprKey(x)) {
 			return false
@@ -799,5 +812,122 @@ func ruleSharedMapNotWritten(c *Check, rule string) {
 	}
 	if bad == 0 {
 		c.OK(rule, "shared-map-not-written", strconv.Itoa(n)+" map stores in code reachable from goroutine bodies: none writes a process-wide map without a lock", "-")
+	}
+}
+
+// R16o: evaluating a BUILD file written in a programming language is bounded. A Starlark thread runs until its
+// program ends; a BUILD.star (or a module it loads) that loops — by mistake or on purpose — keeps the loader
+// goroutine busy forever unless the thread has a step budget or is cancelled when the load context ends.
+func ruleStarlarkThreadsBounded(c *Check, rule string) {
+	c.Rule(rule, "every function of internal/loading that creates a starlark.Thread and executes a file on it bounds the evaluation: it sets a step budget (Thread.SetMaxExecutionSteps) or arranges for Thread.Cancel when the load context is done", 2)
+	n := 0
+	for _, fn := range c.P.Funcs {
+		if !engine.InPackage(fn, "loading") || fn.Parent() != nil {
+			continue
+		}
+		creates := false
+		for _, b := range fn.Blocks {
+			for _, in := range b.Instrs {
+				if al, ok := in.(*ssa.Alloc); ok && strings.HasSuffix(al.Type().String(), "go.starlark.net/starlark.Thread") {
+					creates = true
+				}
+			}
+		}
+		if !creates {
+			continue
+		}
+		n++
+		bounded := false
+		for _, f := range engine.AnonFuncsDeep(fn) {
+			for _, s := range engine.SitesIn(f) {
+				switch engine.CalleeName(s) {
+				case "(*go.starlark.net/starlark.Thread).SetMaxExecutionSteps", "(*go.starlark.net/starlark.Thread).Cancel":
+					bounded = true
+				}
+			}
+		}
+		c.Require(bounded, rule, "starlark-evaluation-bounded/"+c.P.FuncName(fn), "the thread gets a step budget or is cancelled with the load context", "the Starlark thread created here runs without a step budget and is never cancelled: a BUILD.star (or a module it loads) that loops makes `grog` hang in the loader — no error, no exit, and an interrupt does not end the evaluation either", c.P.Pos(fn.Pos()))
+	}
+	if n == 0 {
+		c.Unknown(rule, "starlark-evaluation-bounded", "no function of internal/loading creates a starlark.Thread", "-")
+	}
+}
+
+// R16q: merging a second BUILD file of a directory updates the package the table holds. The caller keeps the
+// `into` object; a merge that writes into the other one (after swapping the two for speed, say) leaves the table
+// with the smaller package and silently drops the rest.
+func ruleMergeWritesIntoTablePackage(c *Check, rule string) {
+	c.Rule(rule, "in the package merge function every map update goes into a map of one and the same parameter on all paths (the parameters are not exchanged)", 1)
+	n := 0
+	for _, fn := range c.P.Funcs {
+		if !engine.InPackage(fn, "loading") || fn.Parent() != nil || len(fn.Params) < 2 {
+			continue
+		}
+		var pk []*ssa.Parameter
+		for _, p := range fn.Params {
+			if engine.TypeKey(p.Type()) == "model.Package" {
+				pk = append(pk, p)
+			}
+		}
+		if len(pk) != 2 {
+			continue
+		}
+		roots := func(v ssa.Value) map[*ssa.Parameter]bool {
+			out := map[*ssa.Parameter]bool{}
+			var walk func(v ssa.Value, d int)
+			seen := map[ssa.Value]bool{}
+			walk = func(v ssa.Value, d int) {
+				if v == nil || seen[v] || d > 12 {
+					return
+				}
+				seen[v] = true
+				switch x := v.(type) {
+				case *ssa.Parameter:
+					out[x] = true
+				case *ssa.Phi:
+					for _, e := range x.Edges {
+						walk(e, d+1)
+					}
+				case *ssa.UnOp:
+					walk(x.X, d+1)
+				case *ssa.FieldAddr:
+					walk(x.X, d+1)
+				case *ssa.Field:
+					walk(x.X, d+1)
+				}
+			}
+			walk(v, 0)
+			return out
+		}
+		dest := map[*ssa.Parameter]bool{}
+		mixed := false
+		var at ssa.Instruction
+		for _, b := range fn.Blocks {
+			for _, in := range b.Instrs {
+				mu, ok := in.(*ssa.MapUpdate)
+				if !ok {
+					continue
+				}
+				r := roots(mu.Map)
+				if len(r) > 1 {
+					mixed, at = true, mu
+				}
+				for p := range r {
+					dest[p] = true
+				}
+			}
+		}
+		if len(dest) == 0 {
+			continue
+		}
+		n++
+		pos := c.P.Pos(fn.Pos())
+		if at != nil {
+			pos = c.P.InstrPos(at)
+		}
+		c.Require(!mixed && len(dest) == 1, rule, "merge-writes-into-one-side/"+c.P.FuncName(fn), "all updates go into the maps of one parameter", "the merge can write into either of its two packages (they are exchanged on some path): the caller keeps one particular object in the package table, so when the other one receives the entries they are lost — targets and aliases of a directory with two BUILD files vanish without an error, depending on which file was loaded first", pos)
+	}
+	if n == 0 {
+		c.Unknown(rule, "merge-writes-into-one-side", "no function of internal/loading merges two packages", "-")
 	}
 }
